@@ -133,7 +133,8 @@ Inductive extension :=
 | EOther.                                       (* master arbitration, history, unset oneof *)
 
 (* ------------------------------------------------------------------ environment and state *)
-Record rwpath := { rw_path : str; rw_iskey : bool; rw_attr : str }.
+(* rw_opts: the TypeOpts of the model entry (width / precision); most entries have none *)
+Record rwpath := { rw_path : str; rw_iskey : bool; rw_attr : str; rw_opts : list N }.
 Record plugin := { pl_type : str; pl_version : str; pl_rw : list rwpath }.
 Record target := { tg_id : str; tg_type : str; tg_version : str }.
 
@@ -410,6 +411,27 @@ Definition to_native (v : option tval) : outcome nval :=
     | SOther => Err c_internal
     end
   end.
+
+(* modelPath.TypeOpts[0]: the int, uint and leaf-list arms read it for the width / precision, under the guard
+   `modelPath != nil && len(modelPath.TypeOpts) > 0` (guarded = true); without the guard an entry that has no
+   type options - every string, bool, bytes leaf - makes the read an index out of range.  The arm is chosen by
+   the WIRE type of the value, whatever the leaf's model type is *)
+Definition type_opt0 (guarded : bool) (opts : list N) : outcome (option N) :=
+  match opts with
+  | x :: _ => Ok (Some x)
+  | [] => if guarded then Ok None else Panic w_index
+  end.
+
+Definition reads_type_opts (v : option tval) : bool :=
+  match v with
+  | Some (TScalar (SInt _)) | Some (TScalar (SUint _)) | Some (TLeaflist _) => true
+  | _ => false
+  end.
+
+(* GnmiTypedValueToNativeType(u.Val, rwPathElem) *)
+Definition to_native_at (r : rwpath) (v : option tval) : outcome nval :=
+  _ <- (if reads_type_opts v then type_opt0 true (rw_opts r) else Ok None) ;;
+  to_native v.
 
 (* accessors of a stored TypedValue as used by tree.handleLeafValue and NativeTypeToGnmiTypedValue:
    TypedBool.Bool (Bytes[0]); TypedLeafList{Int,Decimal}.List (TypeOpts[0], pairs, running slice of
@@ -701,7 +723,7 @@ Definition do_update (rw : list rwpath) (prefix : option gpath) (u : option upda
       r <- find_path_from_model path rw true ;;
       match r with
       | (_, Some rp) =>
-        nv <- to_native v ;;
+        nv <- to_native_at rp v ;;
         _ <- check_key_value path rp nv ;;
         Ok [path]
       | (_, None) => Panic w_nil                               (* not reached: exact lookups return the element *)
